@@ -5,7 +5,7 @@
     the helper functions [estimator_weight], [duration_to_secs], [secs_to_duration]
     (state.rs:676-689), the position limiter [AtomicPosition::{allow,reset}] (state.rs:557-596,
     it decides which updates reach the estimator) and the [ProgressBar] entry points that feed
-    the estimator (progress_bar.rs:221-396), parameterised by the arithmetic [arith]:
+    the estimator (progress_bar.rs:231-400), parameterised by the arithmetic [arith]:
 
       - instance [Rar]    : Coq real numbers, weight [Rpower (1/10) (t/15)]  -> theorems
                             (EstimatorProofs.v, EstimatorBarProofs.v)
@@ -207,7 +207,7 @@ Section Generic.
   Definition bar_record (now : N) (b : bar F) : bar F :=
     mkBar (b_pos b) (b_len b) (b_done b) (b_started b) (est_record (b_pos b) now (b_est b)) (b_lim b).
 
-  (** set_position / inc / dec (progress_bar.rs:233-248, 285-291): store, ask the limiter, tick *)
+  (** inc / dec / set_position (progress_bar.rs:243-258, 295-301): store, ask the limiter, tick *)
   Definition bar_move (newpos : N) (now : N) (b : bar F) : bar F :=
     let '(ok, l') := lim_allow now (b_lim b) in
     let b' := mkBar newpos (b_len b) (b_done b) (b_started b) (b_est b) l' in
@@ -458,6 +458,32 @@ Definition est_shift {F} (p : N) (e : est F) : est F :=
   mkEst (sm e) (dsm e) (prev_steps e + p)%N (prev_time e) (start_time e).
 Definition shift_ev (p : N) (x : ev) : ev :=
   match x with ERec n t => ERec (n + p) t | ERst t q => ERst t (q + p) end.
+
+(** the same history vocabulary for an arbitrary arithmetic (used by the binary64 statements) *)
+Definition est_evA (A : arith) (x : ev) (e : est (T A)) : est (T A) :=
+  match x with
+  | ERec new now => est_record A new now e
+  | ERst now pos => bar_reset_est A now pos e
+  end.
+Fixpoint est_runA (A : arith) (evs : list ev) (e : est (T A)) : est (T A) :=
+  match evs with [] => e | x :: r => est_runA A r (est_evA A x e) end.
+(** positions and instants are u64 in the Rust code *)
+Definition ev_u64 (x : ev) : Prop := (ev_time x < U64)%N /\ (ev_pos x < U64)%N.
+Definition op_u64 (o : eop) : Prop :=
+  match o with SetPos p | UpdPos p | SetLen p => (p < U64)%N | _ => True end.
+
+(** what a supplied binary64 [powf] has to satisfy for the float-side sanity theorems: for a
+    finite non-negative exponent the value is a weight (finite, in [0,1]), and it is below 1 for
+    exponents >= 2^-34 (0.1^(2^-34) = 1 - 1.3e-10 is far from rounding to 1; ages are >= 1 ns,
+    i.e. exponents >= 6.6e-11 > 2^-34).  [table_ok] checks exactly this on the values that occur
+    in a run. *)
+Definition pow_ok (p : FL.F -> FL.F) : Prop :=
+  forall x, Flocq.IEEE754.BinarySingleNaN.is_finite x = true ->
+    0 <= Flocq.IEEE754.BinarySingleNaN.B2R x ->
+    (Flocq.IEEE754.BinarySingleNaN.is_finite (p x) = true /\
+     0 <= Flocq.IEEE754.BinarySingleNaN.B2R (p x) <= 1) /\
+    (Flocq.Core.Raux.bpow Flocq.Core.Zaux.radix2 (-34) <= Flocq.IEEE754.BinarySingleNaN.B2R x ->
+     Flocq.IEEE754.BinarySingleNaN.B2R (p x) < 1).
 
 (** ** Histories of ProgressBar calls *)
 Definition clock_step (o : eop) (now : N) : N :=
